@@ -1123,8 +1123,22 @@ func (vc *VC) bytesOfString(st *State, v Val, rt types.Type, name string) Val {
 	res := vc.allocSlice(st, et, ln, ln, name)
 	comp, srt := vc.elemComp(et)
 	h := vc.heapGet(st, comp, srt)
-	vc.heapSet(st, comp, store(h, sArr(res.T), app(arraySort(SInt, es), "str.bytes", v.T)))
+	bytesOf := app(arraySort(SInt, es), "str.bytes", v.T)
+	vc.heapSet(st, comp, store(h, sArr(res.T), bytesOf))
 	res.Ty = rt
+	// a literal: its length and bytes are known
+	for lit, t := range vc.strLits {
+		if t.S == v.T.S && len(lit) <= 64 {
+			vc.assert(eq(ln, intLit(int64(len(lit)))))
+			for i := 0; i < len(lit); i++ {
+				vc.assert(eq(sel(bytesOf, intLit(int64(i))), vc.fromInt(intLit(int64(lit[i])), et)))
+			}
+			break
+		}
+	}
+	// string([]byte(s)) == s
+	back := vc.pureApp("string.ofbytes", []Val{res}, types.Typ[types.String], func(c, s string) Term { return vc.heapGet(st, c, s) })
+	vc.assert(eq(back, v.T))
 	return res
 }
 
